@@ -94,8 +94,43 @@ class Struct(dict):
     def __repr__(self):
         return "%s%s" % (self.ty, dict.__repr__(self))
 
+    def _key(self):
+        return (self.ty, tuple(sorted((k, _hk(v)) for k, v in self.items())))
+
     def __hash__(self):
-        return id(self)
+        # by content when every field is concrete (map keys such as ConfigKey); identity otherwise
+        try:
+            return hash(self._key())
+        except TypeError:
+            return id(self)
+
+    def __eq__(self, o):
+        if not isinstance(o, Struct):
+            return False
+        if self is o:
+            return True
+        try:
+            return self._key() == o._key()
+        except TypeError:
+            return False
+
+    def __ne__(self, o):
+        return not self.__eq__(o)
+
+    def __lt__(self, o):
+        return self._key() < o._key()
+
+
+def _hk(v):
+    if isinstance(v, Struct):
+        return v._key()
+    if isinstance(v, (list, dict)) or is_sym_raw(v):
+        raise TypeError("unhashable")
+    return v
+
+
+def is_sym_raw(v):
+    return isinstance(v, z3.ExprRef)
 
 
 class Closure:
@@ -386,6 +421,9 @@ class Interp:
                 raise Unsupported("refutable parameter pattern in " + name)
         self.cur_file.append(self.prog.item_file.get(id(it), self.cur_file[-1]))
         try:
+            if body[0] == "block" and not body[1] and body[2] is not None and self._is_default_call(body[2]) and self_ty in self.prog.structs \
+                    and "Default::default" not in self.fn_models:
+                return self.default_of_type(self_ty)
             return self.eval(body, env)
         except ReturnEx as r:
             return r.v
@@ -946,10 +984,52 @@ class Interp:
         else:
             raise Unsupported("assignment target " + k)
 
+    def default_of_type(self, ty):
+        t = ty.replace(" ", "")
+        base = t.split("<")[0].split("::")[-1]
+        if base in ("BTreeMap", "HashMap"):
+            return {}
+        if base in ("Vec", "BTreeSet", "HashSet", "LinkedList", "VecDeque"):
+            return []
+        if base == "Option":
+            return NONE
+        if base in ("u8", "u16", "u32", "u64", "usize", "i8", "i16", "i32", "i64", "isize"):
+            return 0
+        if base == "bool":
+            return False
+        if base in ("String", "str"):
+            return ""
+        if base in ("Arc", "Box", "Rc") and "<" in t:
+            return self.default_of_type(t[t.index("<") + 1:-1])
+        if base in self.prog.structs and self.prog.structs[base]:
+            return Struct(base, {f: self.default_of_type(fty) for f, fty in self.prog.structs[base]})
+        if self.lenient:
+            return self.mk_opaque("default<%s>" % base, [])
+        raise Unsupported("Default::default() of type %s" % ty)
+
+    @staticmethod
+    def _is_default_call(e):
+        return e[0] == "call" and e[1][0] == "path" and e[1][1][-2:] == ["Default", "default"] and not e[2]
+
     def ev_struct(self, e, env):
         segs, fields, base = e[1], e[2], e[3]
         name = segs[-1]
         vals = {}
+        sname = env.lookup("Self") if name == "Self" and env.has("Self") else name
+        if sname in self.prog.structs and self.prog.structs[sname] and "Default::default" not in self.fn_models:
+            ftypes = dict(self.prog.structs[sname])
+            new_fields = []
+            for fname, fe in fields:
+                if self._is_default_call(fe) and fname in ftypes:
+                    vals[fname] = self.default_of_type(ftypes[fname])
+                else:
+                    new_fields.append((fname, fe))
+            if base is not None and self._is_default_call(base):
+                for f, fty in self.prog.structs[sname]:
+                    if f not in vals and f not in dict(new_fields):
+                        vals[f] = self.default_of_type(fty)
+                base = None
+            fields = new_fields
         if base is not None:
             b = self.eval(base, env)
             if isinstance(b, dict):
@@ -1410,9 +1490,29 @@ class Interp:
                     else:
                         raise Unsupported("set insert with symbolic equality")
                 recv.append(args[0])
+                try:
+                    recv.sort()
+                except TypeError:
+                    pass
                 return True
             recv.append(args[0])
             return ()
+        if name == "remove":
+            x = args[0]
+            if isinstance(x, int) and not isinstance(x, bool) and not any(isinstance(y, int) for y in recv[:1]):
+                # Vec::remove(index)
+                if x >= len(recv):
+                    raise RustPanic("removal index out of bounds")
+                return recv.pop(x)
+            for i, y in enumerate(recv):
+                c = self.eq(y, x)
+                if isinstance(c, bool):
+                    if c:
+                        del recv[i]
+                        return True
+                else:
+                    raise Unsupported("set remove with symbolic equality")
+            return False
         if name == "insert" and len(args) == 2:
             recv.insert(args[0], args[1])
             return ()
